@@ -143,7 +143,9 @@ type Hist struct {
 	cfgFor  string
 	outcome uint64
 	failed  bool
-	inLib   bool // a call into the library under test is in progress (panics elsewhere are harness bugs)
+	// InNilParse tells a Panic oracle that the panicking call was Parse(nil, ...).
+	InNilParse bool
+	inLib      bool // a call into the library under test is in progress (panics elsewhere are harness bugs)
 
 	States   map[uint64]struct{}
 	Outcomes map[uint64]struct{}
@@ -426,9 +428,9 @@ func runParserHist(h *Hist, orc *Oracle) {
 	doParse := func(nilBlk bool, flags int) (n int, err error) {
 		ev := ParseEv{Flags: flags, Nil: nilBlk, PosBefore: h.Pos, OffBefore: h.Off, Unparsed: len(h.Stream) - h.Pos, Blk: blk}
 		if nilBlk {
-			h.inLib = true
+			h.inLib, h.InNilParse = true, true
 			n, err = p.Parse(nil, flags)
-			h.inLib = false
+			h.inLib, h.InNilParse = false, false
 			ev.Blk = nil
 		} else {
 			h.inLib = true
